@@ -63,6 +63,10 @@ func (u *Unit) evalClause(c *Clause, st, old *State, local map[string]Val, rv *r
 
 func (u *Unit) evalClauseVal(c *Clause, st, old *State, local map[string]Val, rv *roleVals) Val {
 	sf := u.specFn(c)
+	// whose clause is being evaluated (reached() only has a meaning inside the function that owns the clause)
+	savedOwner := u.evalOwner
+	u.evalOwner = sf.Owner
+	defer func() { u.evalOwner = savedOwner }()
 	specPkg := u.prog.Pkgs[sf.Pkg]
 	bind := map[*types.Var]Val{}
 	oldBind := map[*types.Var]Val{}
@@ -453,6 +457,11 @@ func (u *Unit) evalGhostCall(call *ast.CallExpr, f *types.Func, st *State) []Val
 			u.fail("reached() needs a string literal naming a call site (%s)", u.pos(call))
 		}
 		name := strings.Trim(lit.Value, "\"`")
+		if u.evalOwner != "" && u.evalOwner != u.fi.Key {
+			// the clause belongs to a callee (its postcondition is being assumed at a call): which of ITS call sites
+			// were executed is not visible here -- no information either way
+			return []Val{{T: u.reg.fresh("reached_in_callee", "Bool"), S: "Bool", GT: types.Typ[types.Bool]}}
+		}
 		var alts []string
 		if strings.HasPrefix(name, "loop#") {
 			// reached("loop#N"): the N-th loop statement (of the expansion) has been entered
